@@ -215,7 +215,9 @@ fn main() {
         }
     };
     let wall = start.elapsed().as_secs_f64();
-    let floors: Vec<String> = if cfg.only_case.is_some() || cfg.miri {
+    // (the floors are a demand on the full workload: a sample of it - `--scale` below 1, as the release
+    // layer of the quick tier is run - repeats a part of what the full layer does and is not asked for them)
+    let floors: Vec<String> = if cfg.only_case.is_some() || cfg.miri || cfg.scale < 1.0 {
         Vec::new()
     } else {
         floors
